@@ -5,11 +5,20 @@ PROP = {'engine': 'c15',
  'crash_is_violation': True,
  'hang_is_violation': True,
  'technique': 'hostile-input runtime monitoring: child-process survival, liveness and allocation monitors',
- 'rule': 'four surfaces driven with the real code, every case a materialised script: (a) the server side of the encryption handshake '
+ 'rule': 'five surfaces driven with the real code, every case a materialised script: (a) the server side of the encryption handshake '
          '(p2p.NewPeer + DoHandshake as p2p.Server.HandleConn runs it) on a net.Pipe fed raw bytes: a valid client hello cut at every '
          'offset, wrong magic, every length-prefix class (0, small, exact, 25 MiB+-1, 64 MiB; 1 GiB and 4 GiB-1 once per run), a valid '
          'ECIES envelope around empty / random / wrong-shape / right-shape-absurd / truncated RLP, valid hello with single absurd fields, '
-         'arbitrary write splits, close vs silent hold; (b) after the repository\'s own client handshake Peer.Run + a ReadMsg consumer '
+         'arbitrary write splits, close vs silent hold, and hand-built ECIES messages (own implementation of the scheme: anybody who knows '
+         'the NodeID can put a valid tag on anything) whose encrypted part has every length 0..40 and larger ones up to the reader\'s cap, '
+         'with valid / flipped / missing tag; (e) the dialling side: p2p.NewPeer + DoHandshake(prv, remoteID) as Server.HandleConn runs it '
+         'for DialManager, against a scripted listener that takes the node\'s hello and answers with: a valid response whole and in awkward '
+         'splits (the dial must succeed and a probe frame under the session key must be delivered), a valid response with one absurd field '
+         '(key off the curve / zero / ff / x right y wrong / 63, 65, 33, 1, 0 bytes / missing / a list / 10 kB; nonce short / long / empty / '
+         'missing / list), a valid envelope around arbitrary RLP trees and non-RLP bytes, the hand-built ECIES shapes of (a), a valid '
+         'response cut at every offset incl. nothing at all, wrong magic, every length-prefix class up to 4 GiB-1, units behind an accepted '
+         'response; after a complete unit the node\'s handshake has to reach a verdict (30 s watchdog) and an accepted one has to serve '
+         'the connection; (b) after the repository\'s own client handshake Peer.Run + a ReadMsg consumer '
          'receive raw frames: every ciphertext length 1..49 and larger, declared lengths around the 25 MiB cap up to 4 GiB-1 with little '
          'data, every padding class after decryption (valid padding leaving 0..31 bytes, invalid pad bytes, filler mismatch), well-formed '
          'frames for every code 0..0x21 and huge codes x payload classes, a well-formed frame cut at every offset, bursts, byte-wise '
@@ -41,6 +50,6 @@ PROP = {'engine': 'c15',
                  'expiration times of transactions sent to handleTxsMsg are relative to the wall clock at execution (the handler compares with time.Now)',
                  'connection closed-vs-kept is recorded, not judged'],
  'min_cases': {'quick': 2500, 'thorough': 60000},
- 'min_stats': {'quick': {'alloc_checks': 2500, 'goroutine_checks': 60, 'connections_a': 300, 'connections_b': 300, 'c_messages_sent': 1000, 'd_blocks_inserted': 100, 'd_txs_verified': 100, 'd_confirm_packets_inserted': 50},
+ 'min_stats': {'quick': {'alloc_checks': 2500, 'goroutine_checks': 60, 'connections_a': 300, 'connections_b': 300, 'connections_e': 300, 'e_handshakes_accepted': 30, 'e_handshakes_refused': 200, 'e_probes_delivered_after_dial': 20, 'e_node_hellos_well_formed': 300, 'c_messages_sent': 1000, 'd_blocks_inserted': 100, 'd_txs_verified': 100, 'd_confirm_packets_inserted': 50},
                'thorough': {'alloc_checks': 50000, 'goroutine_checks': 1000}},
  'timeout_s': {'quick': 900, 'thorough': 10800}}
